@@ -92,12 +92,23 @@ func TestProp_UpperBound(t *testing.T) {
 		spec := shape.Spec(dir)
 		spec.ScenarioFn = scenario
 		spec.WaitTimeout = 20 * time.Second
-		if _, err := vlib.Execute(spec); err != nil {
+		// one case in four through the public entry point: the CLI's own mapping of --concurrency
+		viaCLI := rapid.IntRange(0, 3).Draw(rt, "viaCLI") == 0
+		var err error
+		if viaCLI {
+			_, err = vlib.ExecuteCLI(spec)
+		} else {
+			_, err = vlib.Execute(spec)
+		}
+		if err != nil {
 			rt.Fatalf("VERIF-INFRA: cannot execute %s: %v", shape.Desc, err)
 		}
 		hw := p.highWater.Load()
 		pressed := hw == int64(shape.Concurrency)
 		cls := []string{"mode-" + shape.Mode}
+		if viaCLI {
+			cls = append(cls, "through-the-cli")
+		}
 		if pressed {
 			cls = append(cls, "bound-pressed")
 		}
